@@ -360,7 +360,7 @@ class Overlay(BaseOverlay):
             @functools.wraps(fn)
             def newfn(args):
                 if not full:
-                    args = {k: v.value for k, v in args.items()}
+                    args = {k: v.value for k, v in args.items() if v.values}
                 return fn(args)
 
             return newfn
